@@ -11,7 +11,9 @@ final store `s` and the log of what every operation did.
 
 Property clauses and the theorems that carry them
 * at most once ....................... `fires_at_most_once`
-* only after detection ............... `fires_only_after_detection`, `detected_only_when_condition_met`
+* only after detection ............... `fires_only_after_detection`, `detected_only_when_condition_met`,
+                                       `never_detected_on_partial_matches` (+ `txMatches_is_the_documented_condition`,
+                                       `txMatches_ignores_repetition_and_order`, `txMatches_false_of_unsatisfied_attribute`)
 * first detected, first run .......... `fifo_order`, `executed_is_prefix_of_detected`, `queue_is_a_fifo_list`
 * all or nothing ..................... `actions_all_or_nothing`, `block_effects_only_from_successful_triggers`,
                                        `balances_all_or_nothing`
@@ -91,6 +93,88 @@ theorem detected_only_when_condition_met (ops : List Op) (evs : List AbciEvent) 
   split at hd
   · next ts' hda => cases hd; exact detectAll_spec (HInv_reach ops).wf hda
   · cases hd
+
+/-! ### a transaction event's condition: every requested attribute, on one event
+
+The event may carry any attribute any number of times (repeated keys, several values under one key);
+the request may list several attributes, the same key more than once.  What counts is that EVERY
+requested attribute is satisfied by some attribute of the event — not how many attributes of the
+event satisfy something. -/
+
+/-- `TransactionEvent.Matches` decides exactly the documented criterion on that one event
+(`conditionMet`, the function the checker evaluates on the implementation's detections). -/
+theorem txMatches_is_the_documented_condition (n : String) (attrs : List (String × String))
+    (ev : AbciEvent) (h tm : Nat) :
+    txMatches n attrs ev = conditionMet (.tx n attrs) [ev] h tm := by
+  rw [Bool.eq_iff_iff]
+  simp only [txMatches, attrMatches, conditionMet, List.any_cons, List.any_nil, Bool.or_false,
+    Bool.and_eq_true, beq_iff_eq, List.all_eq_true, List.any_eq_true, Bool.or_eq_true]
+  constructor
+  · rintro ⟨h1, h2⟩
+    refine ⟨h1.symm, fun x hx => ?_⟩
+    obtain ⟨o, ho, e1, e2⟩ := h2 x hx
+    exact ⟨o, ho, e1.symm, e2.imp id Eq.symm⟩
+  · rintro ⟨h1, h2⟩
+    refine ⟨h1.symm, fun x hx => ?_⟩
+    obtain ⟨o, ho, e1, e2⟩ := h2 x hx
+    exact ⟨o, ho, e1.symm, e2.imp id Eq.symm⟩
+
+/-- Whether an event matches depends only on WHICH attributes it carries, not on how often or in
+what order: two events of one type with the same set of attributes match the same requests.  In
+particular repeating attributes of an event never turns a non-match into a match. -/
+theorem txMatches_ignores_repetition_and_order (n : String) (attrs : List (String × String))
+    (ty : String) (as bs : List (String × String)) (hset : ∀ o, o ∈ as ↔ o ∈ bs) :
+    txMatches n attrs ⟨ty, as⟩ = txMatches n attrs ⟨ty, bs⟩ := by
+  have hany : ∀ a, as.any (attrMatches a) = bs.any (attrMatches a) := by
+    intro a
+    rw [Bool.eq_iff_iff]
+    simp only [List.any_eq_true]
+    exact ⟨fun ⟨o, ho, hm⟩ => ⟨o, (hset o).1 ho, hm⟩, fun ⟨o, ho, hm⟩ => ⟨o, (hset o).2 ho, hm⟩⟩
+  simp only [txMatches, hany]
+
+/-- An event whose attributes leave one requested attribute unsatisfied does not match — whatever
+else it carries, however many times. -/
+theorem txMatches_false_of_unsatisfied_attribute (n : String) (attrs : List (String × String))
+    (ev : AbciEvent) (a : String × String) (ha : a ∈ attrs)
+    (hno : ∀ o ∈ ev.attrs, ¬ (o.1 = a.1 ∧ (a.2 = "" ∨ o.2 = a.2))) :
+    txMatches n attrs ev = false := by
+  rw [Bool.eq_false_iff]
+  intro hm
+  simp only [txMatches, attrMatches, Bool.and_eq_true, beq_iff_eq, List.all_eq_true, List.any_eq_true,
+    Bool.or_eq_true] at hm
+  obtain ⟨o, ho, e1, e2⟩ := hm.2 a ha
+  exact hno o ho ⟨e1.symm, e2.imp id Eq.symm⟩
+
+/-- Over every history: a transaction-event trigger is NOT detected by a block in which every event
+of its type leaves at least one of its requested attributes unsatisfied (missing key or other
+value) — partial matches never add up, within one event or across events. -/
+theorem never_detected_on_partial_matches (ops : List Op) (evs : List AbciEvent) (h tm : Nat)
+    (s' : State) (ts : List Trigger)
+    (hd : detectBlockEvents (run State.init ops).1 evs h tm = some (s', ts))
+    (t : Trigger) (n : String) (attrs : List (String × String)) (he : t.event = .tx n attrs)
+    (hpart : ∀ ev ∈ evs, ev.type = n →
+      ∃ a ∈ attrs, ∀ o ∈ ev.attrs, ¬ (o.1 = a.1 ∧ (a.2 = "" ∨ o.2 = a.2))) :
+    t ∉ ts := by
+  intro ht
+  have hc := ((detected_only_when_condition_met ops evs h tm s' ts hd).2 t ht).2
+  rw [he] at hc
+  simp only [conditionMet, List.any_eq_true, Bool.and_eq_true, beq_iff_eq, List.all_eq_true,
+    Bool.or_eq_true] at hc
+  obtain ⟨ev, hev, hty, hall⟩ := hc
+  obtain ⟨a, ha, hno⟩ := hpart ev hev hty
+  obtain ⟨o, ho, e1, e2⟩ := hall a ha
+  exact hno o ho ⟨e1, e2⟩
+
+/-- non-vacuity: trigger 1 waits for `settle` with any `party` and `status=done`.  The block's event
+carries `party` twice and `status=open`: two of its attributes satisfy the request's first
+attribute, none the second — not detected; the next block's event carries all of it — detected. -/
+example : (run State.init
+    [ .create ⟨["A"], .tx "settle" [("party", ""), ("status", "done")], [.send "A" "B" 1]⟩ 500000 10 1000,
+      .endBlock [⟨"settle", [("party", "x"), ("party", "y"), ("status", "open")]⟩] 10 1000,
+      .endBlock [⟨"settle", [("status", "done"), ("party", "y"), ("party", "x")]⟩] 11 1006 ]).2 =
+    [.created 1 497490, .detected [],
+     .detected [⟨1, "A", .tx "settle" [("party", ""), ("status", "done")], [.send "A" "B" 1]⟩]] := by
+  decide
 
 /-- The store-backed queue (items keyed by index, start index, length) behaves as a list:
 `Enqueue` appends, `QueuePeek` reads the head, `Dequeue` removes it. -/
